@@ -860,9 +860,6 @@ Qed.
 
 (* ---------- ill-formed operations ---------- *)
 
-Definition r_in_api (isset: bool) (o: rop) : bool :=
-  match o with RSetType _ _ | RGetType _ _ => isset | RGetComponent | RGetName0 => false | _ => true end.
-
 Lemma rec_set_bad_val cfg s i k v : pyidx i (length cfg) = Some k -> is_some (pv_z v) = false ->
   rec_set cfg s i (Some v) = Err ELib.
 Proof.
